@@ -2,6 +2,7 @@ import ElaVerif.Lemmas.WalletCodec
 import ElaVerif.Lemmas.WalletAddress
 import ElaVerif.Lemmas.WalletProgram
 import ElaVerif.Lemmas.WalletMultisig
+import ElaVerif.Lemmas.WalletKeystore
 import ElaVerif.Props.C05
 /-!
 # C37 — wallet signatures verify, and only for the signed data; addresses and amounts parse back
@@ -125,6 +126,28 @@ theorem C37_tamper {D : Type} (O : Oracles D) (d d' : D) (pub sig : Bytes) (pfx 
   exact ElaVerif.C05.C05_tamper O d d' ⟨pfx, O.codeHash (standardCode pub)⟩ ⟨standardCode pub, standardParam sig⟩
     hb hbs (Or.inr (std_isStandard pub hpub)) hx
     (wallet_standard_accepts O d pub sig pfx hpub hsig hp hdec hver)
+
+/-! ## keystore round trip of the private key -/
+
+/-- **Keystore.** `SaveAccount` writes `D.Bytes()` (which has no leading zero bytes and may be shorter
+    than 32 bytes) right-aligned into the 32-byte slot `keyPair[64:96]`; `LoadAccounts` reads the slot
+    back as the scalar.  For every scalar below 2^256 the slot has 32 bytes and denotes the same scalar —
+    so the reloaded account signs with the same key, and the acceptance theorems above apply to it. -/
+theorem C37_keystore_roundtrip (d : Nat) (h : d < 2 ^ 256) :
+    (storeKey false (natToBytes d)).length = 32 ∧ loadScalar (storeKey false (natToBytes d)) = d :=
+  keystore_roundtrip d h
+
+/-- also for key bytes that already carry leading zeros (any length up to 32) -/
+theorem C37_keystore_slot_spec (priv : Bytes) (h : priv.length ≤ 32) :
+    (storeKey false priv).length = 32 ∧ loadScalar (storeKey false priv) = bytesToNat priv := storeKey_spec priv h
+
+example : storeKey false (natToBytes 0x0102) = List.replicate 30 0 ++ [1, 2] := by decide
+
+/-- NEGATION for the left-aligned copy (`copy(slot, priv)`): a 31-byte key comes back multiplied by 256,
+    a 1-byte key by 2^248. -/
+theorem C37_keystore_leftaligned_false :
+    loadScalar (storeKey true (natToBytes 1)) = 2 ^ 248 ∧
+    loadScalar (storeKey true (natToBytes (2 ^ 247))) = 2 ^ 255 := by decide
 
 /-! ## m-of-n accounts the wallet creates -/
 
